@@ -497,6 +497,24 @@ func (e *Env) callExpr(n *ast.CallExpr) Term {
 		e2.s = e.old
 		e2.paramsEntry = true // in the entry state parameters have their entry values
 		return e2.tr(n.Args[0])
+	case "oldheap":
+		// evaluate with the memory (heaps, ghost state) of the entry state but the current values of variables
+		if e.old == nil {
+			fail("oldheap() not available here")
+		}
+		h := e.s.clone()
+		h.heaps = map[string]Term{}
+		for k, v := range e.old.heaps {
+			h.heaps[k] = v
+		}
+		h.epoch = e.old.epoch
+		h.ghost = map[string]Term{}
+		for k, v := range e.old.ghost {
+			h.ghost[k] = v
+		}
+		e2 := *e
+		e2.s = h
+		return e2.tr(n.Args[0])
 	case "len":
 		a := e.tr(n.Args[0])
 		switch a.Sort {
@@ -561,6 +579,31 @@ func (e *Env) callExpr(n *ast.CallExpr) Term {
 			fail("store: bad sorts %s / %s / %s", a.Sort, i.Sort, v.Sort)
 		}
 		return Term{S: fmt.Sprintf("(store %s %s %s)", a.S, i.S, v.S), Sort: a.Sort}
+	case "mkstruct":
+		// mkstruct("pkg.Type", f1, f2, ...): a value of the struct type with the given fields in order
+		lit, ok := n.Args[0].(*ast.BasicLit)
+		if !ok {
+			fail("mkstruct needs a type name")
+		}
+		tn, _ := strconv.Unquote(lit.Value)
+		t := u.p.lookupType(tn)
+		if t == nil {
+			fail("unknown type %s", tn)
+		}
+		st, ok := t.Underlying().(*types.Struct)
+		if !ok || st.NumFields() != len(n.Args)-1 {
+			fail("mkstruct %s: wrong number of fields", tn)
+		}
+		so := u.ss.sortOf(t)
+		var fs []string
+		for i, a := range n.Args[1:] {
+			ft := e.tr(a)
+			if ft.Sort != u.ss.sortOf(st.Field(i).Type()) {
+				fail("mkstruct %s: field %d has sort %s", tn, i, ft.Sort)
+			}
+			fs = append(fs, ft.S)
+		}
+		return Term{S: fmt.Sprintf("(mk.%s %s)", so, strings.Join(fs, " ")), Sort: so, T: t}
 	case "skolem":
 		// skolem("K", "pkg.Type"): an arbitrary but fixed value of the type ("for all K")
 		l1, ok1 := n.Args[0].(*ast.BasicLit)
